@@ -22,13 +22,15 @@ type point struct {
 }
 
 type exec struct {
-	threads []*thread
-	cur     int
-	prefix  []int
-	points  []point
-	fin     chan struct{}
-	limit   int
-	runaway bool
+	threads  []*thread
+	cur      int
+	prefix   []int
+	points   []point
+	fin      chan struct{}
+	limit    int
+	runaway  bool
+	streak   int  // consecutive Blocked calls without any thread making progress
+	deadlock bool // every live thread is waiting
 }
 
 var ex *exec
@@ -69,6 +71,7 @@ func Yield() {
 		e.runaway = true
 		return // stop branching; let the execution finish sequentially
 	}
+	e.streak = 0
 	me := e.cur
 	next := e.decide()
 	if next != me {
@@ -76,6 +79,46 @@ func Yield() {
 		e.threads[next].wake <- struct{}{}
 		<-e.threads[me].wake
 	}
+}
+
+// DeadlockPanic unwinds a thread when every live thread is waiting.
+type DeadlockPanic struct{}
+
+func (DeadlockPanic) Error() string { return "sched: deadlock (every live thread is waiting)" }
+
+// Blocked is called by the sync shims when the running thread cannot proceed: the scheduler must
+// run somebody else (a forced switch, not a preemption). If nobody else can run, or all live
+// threads keep waiting on each other, the execution is a deadlock.
+func Blocked() {
+	e := ex
+	if e == nil {
+		return
+	}
+	me := e.cur
+	var others []int
+	for i, t := range e.threads {
+		if i != me && !t.done {
+			others = append(others, i)
+		}
+	}
+	e.streak++
+	if len(others) == 0 || e.streak > 4*len(e.threads) {
+		e.deadlock = true
+		panic(DeadlockPanic{})
+	}
+	// forced choice among the other live threads (a choice point without preemption cost)
+	c := 0
+	if len(e.points) < len(e.prefix) {
+		c = e.prefix[len(e.points)]
+		if c >= len(others) {
+			panic(fmt.Sprintf("sched: replay divergence at blocked point %d", len(e.points)))
+		}
+	}
+	e.points = append(e.points, point{nEnabled: len(others), choice: c, preempt: false})
+	next := others[c]
+	e.cur = next
+	e.threads[next].wake <- struct{}{}
+	<-e.threads[me].wake
 }
 
 func run(bodies []func(), prefix []int, limit int) *exec {
@@ -122,6 +165,7 @@ type Stats struct {
 	Capped     bool // the execution cap was hit: not exhaustive at this bound
 	Runaway    bool // an execution exceeded the per-execution point limit
 	Panics     int
+	Deadlocks  int
 }
 
 // Explorer explores all schedules of the bodies with at most Bound preemptions.
@@ -132,6 +176,7 @@ type Explorer struct {
 	Bodies   func() []func()      // fresh thread bodies (and fresh state) per execution
 	Check    func(sched []int, panics []interface{}) // evaluated after every execution
 	SetHook  func(func())         // installs / removes the yield hook in the code under test
+	Abort    bool                 // set by Check to stop the exploration (a violation was found)
 	stats    Stats
 }
 
@@ -157,6 +202,9 @@ func (x *Explorer) one(prefix []int) *exec {
 	if e.runaway {
 		x.stats.Runaway = true
 	}
+	if e.deadlock {
+		x.stats.Deadlocks++
+	}
 	var pans []interface{}
 	for _, t := range e.threads {
 		if t.pan != nil {
@@ -173,6 +221,9 @@ func (x *Explorer) one(prefix []int) *exec {
 }
 
 func (x *Explorer) explore(prefix []int) {
+	if x.Abort {
+		return
+	}
 	if x.MaxExec > 0 && x.stats.Executions >= x.MaxExec {
 		x.stats.Capped = true
 		return
@@ -194,7 +245,7 @@ func (x *Explorer) explore(prefix []int) {
 					}
 					np[i] = alt
 					x.explore(np)
-					if x.stats.Capped {
+					if x.stats.Capped || x.Abort {
 						return
 					}
 				}
